@@ -72,12 +72,10 @@ def char_class(value):
     if value.startswith('~'):
         head = value.partition('/')[0]
         odd = [c for c in head[1:] if not re.match(r'[\w.-]', c)]
-        if "'" in odd:
-            return 'tilde-prefix-left-unquoted:single-quote'
-        if any(c in ';&|()<>' for c in odd):
-            return 'tilde-prefix-left-unquoted:shell-operator'
         if odd:
-            return 'tilde-prefix-left-unquoted:other'
+            # one root cause whatever the character: a tilde-prefix that is
+            # not a login name is written to the job script unquoted
+            return 'tilde-prefix-left-unquoted'
         return 'tilde-form'
     for c, name in (("'", 'single-quote'), ('#', 'hash'), ('\t', 'tab'),
                     (' ', 'space'), ('*', 'glob'), ('?', 'glob'),
@@ -253,7 +251,7 @@ def judge(case, rc, items, envd, err, home):
     got = envd.get(name) if rc == 0 else None
     if got != want:
         sig = char_class(value)
-        if case['param_var']:
+        if case['param_var'] and sig != 'tilde-prefix-left-unquoted':
             sig += ':with-param-vars'
         res.append((
             f'literal:{sig}',
